@@ -17,6 +17,10 @@ pub(crate) mod verif_common {
         }
         None
     }
+    /// stub for std::hash::RandomState::new (HashMap keys come from the OS; any fixed keys are a valid RandomState)
+    pub fn fixed_random_state() -> std::hash::RandomState {
+        unsafe { core::mem::transmute::<[u64; 2], std::hash::RandomState>([1, 2]) }
+    }
     /// stub for alloc::fmt::format: error-message text is irrelevant to every contract
     pub fn no_format(_args: core::fmt::Arguments<'_>) -> String {
         String::new()
